@@ -1,20 +1,19 @@
 #!/bin/bash
-# usage: scripts/seed_confirm.sh <seed id> <worktree> <test name regex>
+# usage: scripts/seed_confirm.sh <seed id> <worktree> <test name regex> [package dir of the demonstration, default tests]
 # Confirms a seeded change in its scratch worktree: the demonstration (package tests) fails with the
 # change and passes without it; then keeps it (seed_keep.sh: copies OUT/, runs the repository's suite with the change).
-id="$1"; wt="$2"; rx="$3"
+id="$1"; wt="$2"; rx="$3"; pkg="${4:-tests}"
 export GOFLAGS=-mod=mod GOPROXY=off GOSUMDB=off GOTOOLCHAIN=local GOCACHE=/verif/.cache/go
 d=/verif/seeded/$id; mkdir -p $d
 cd $wt
-git diff -- . ':!OUT' ':!tests/demo_test.go' > /verif/.scratch/seedtmp-$id.diff 2>/dev/null
-cmp -s <(git diff) OUT/patch.diff || cp OUT/patch.diff /verif/.scratch/seedtmp-$id.diff
-cp OUT/demo_test.go tests/demo_test.go
+cp OUT/patch.diff /verif/.scratch/seedtmp-$id.diff
+cp OUT/demo_test.go $pkg/demo_test.go
 echo "== with the change" > $d/confirm.txt
-timeout 900 go test -vet=off -count=1 -run "$rx" ./tests/ 2>&1 | grep -a -v '^I\[' | grep -a "^--- \|^FAIL\|^ok\|^PASS\|panic:" | head -20 >> $d/confirm.txt
+timeout 900 go test -vet=off -count=1 -run "$rx" ./$pkg/ 2>&1 | grep -a -v '^I\[' | grep -a "^--- \|^FAIL\|^ok\|^PASS\|panic:" | head -20 >> $d/confirm.txt
 git apply -R /verif/.scratch/seedtmp-$id.diff
 echo "== without the change" >> $d/confirm.txt
-timeout 900 go test -vet=off -count=1 -run "$rx" ./tests/ 2>&1 | grep -a -v '^I\[' | grep -a "^--- \|^FAIL\|^ok\|^PASS\|panic:" | head -20 >> $d/confirm.txt
+timeout 900 go test -vet=off -count=1 -run "$rx" ./$pkg/ 2>&1 | grep -a -v '^I\[' | grep -a "^--- \|^FAIL\|^ok\|^PASS\|panic:" | head -20 >> $d/confirm.txt
 git apply /verif/.scratch/seedtmp-$id.diff
-rm -f tests/demo_test.go
+rm -f $pkg/demo_test.go
 cat $d/confirm.txt
 /verif/scripts/seed_keep.sh $id $wt
